@@ -39,7 +39,7 @@ def main():
         a = sh("git -C /repo apply --3way %s" % patch)
         if a.returncode != 0:
             print("patch does not apply: " + a.stderr[-500:])
-            sh("git -C /repo checkout -- . && git -C /repo reset -q")
+            sh("git -C /repo reset -q --hard HEAD")
             return 2
         sh("git -C /repo reset -q")
     try:
@@ -60,7 +60,7 @@ def main():
             print("%s: %s exit=%d %s" % (os.path.basename(d), c, r.returncode,
                                         (detail[0][:200] if detail else "")))
     finally:
-        sh("git -C /repo checkout -- .")
+        sh("git -C /repo reset -q --hard HEAD")
     with open(os.path.join(d, "result.json"), "w") as f:
         json.dump(res, f, indent=1)
     print(json.dumps({k: v for k, v in res.items() if k != "checks"}))
